@@ -51,7 +51,7 @@ def run(chk):
         chk.count(t[0])
         chk.count("%s:%s" % (t[0], a.split()[0]))
         chk.nontriv(c)
-        if a.startswith(("PANIC", "CRASH", "TIMEOUT")):
+        if a.startswith(("PANIC", "CRASH", "TIMEOUT", "HANG")):
             chk.monitor_fail("certificate handling panicked", dict(case=c, impl=a))
             continue
         f = dict(x.split("=", 1) for x in t[1:])
